@@ -9,6 +9,7 @@ from .. import scope as scopemod
 from ..repo import AnalysisError
 from .c04 import fold
 
+_R = None
 LEVEL = "other"
 EXPLANATION = (
     "Decides: every non-error path of claim/allocate/open/add writes "
@@ -25,6 +26,10 @@ EXPLANATION = (
 
 def run(ctx):
     model = ctx.model
+    from .. import roles as _roles
+    R = _roles.get(model)
+    global _R
+    _R = R
     interp = model.interp
     ctx.rule("R12.stamp", "claim/allocate/open/add stamp mailboxes.updated of their "
              "mailbox with the command's time on every non-error path")
@@ -76,7 +81,7 @@ def run(ctx):
     touch_ok = None
     from ..events import each_event as _each
     for p, e, loops in _each(model, ["timer"], ("call",)):
-        if e["callee"] == "AppNamespace.prune":
+        if e["callee"] == R.sweep_app:
             prune_calls += 1
     ctx.require("R12.touch", prune_calls, 1, "calls of the per-app sweep on timer paths")
     done = set()
@@ -89,16 +94,16 @@ def run(ctx):
     old_param = None
     old_coll = None
     for p, e, loops in each_event(model, ["timer"], ("call", "sql")):
-        if e["k"] == "call" and e["callee"] == "AppNamespace.prune" and len(e["args"]) >= 2:
+        if e["k"] == "call" and e["callee"] == R.sweep_app and len(e["args"]) >= 2:
             old_param = e["args"][1]
         if e["k"] == "sql" and e["stmt"].kind == "delete" and \
-                e["stmt"].table == "mailboxes" and e["func"] == "AppNamespace.prune":
+                e["stmt"].table == "mailboxes" and R.sweep_app in e["stack"]:
             tt = (e["binds"]["where_eq"] or {}).get("id")
             if tt is not None and tt[0] == "elem":
                 old_coll = strip_wrappers(tt[1])
     if True:
         for p, e, loops in each_event(model, ["timer"], ("loop",)):
-            if id(e) in done or e["func"] != "AppNamespace.prune":
+            if id(e) in done or e["func"] != R.sweep_app:
                 continue
             done.add(id(e))
             it = strip_wrappers(e["iter"]) if e["iter"] else None
@@ -163,13 +168,13 @@ def run(ctx):
                         ctx.ob("R12.keys", construct_of(x), ok, x, why)
     # deletes outside loops in prune
     for p, e, loops in each_event(model, ["timer"], ("sql",)):
-        if e["func"] == "AppNamespace.prune" and e["stmt"].kind == "delete" and \
-                e["db"] == "chan" and not any(l["func"] == "AppNamespace.prune" for l in loops):
+        if e["func"] == R.sweep_app and e["stmt"].kind == "delete" and \
+                e["db"] == "chan" and not any(l["func"] == R.sweep_app for l in loops):
             ctx.ob("R12.keys", construct_of(e), False, e,
                    "a sweep delete outside the per-element loops")
     ctx.require("R12.touch", ntouch, 1, "touch loops over the mailbox registry")
     ctx.require("R12.cmp", ncmp, 1, "classification loops")
-    ctx.require("R12.keys", nkeys, 5, "delete statements in the sweep")
+    ctx.require("R12.keys", nkeys, 3, "delete statements in the sweep")
     # touch commit precedes classification
     for p in timer[:1]:
         _touch_commit_order(ctx, p)
@@ -292,7 +297,7 @@ def _touch_commit_order(ctx, p):
                 okk = False
                 evs = [x for x, ls in flat_events(alt["events"], False)]
                 for x in evs:
-                    if x["func"] != "AppNamespace.prune":
+                    if x["func"] != _R.sweep_app:
                         continue
                     if x["k"] == "loop" and x["iter"] and \
                             strip_wrappers(x["iter"])[0] == "call" and state == 0:
@@ -303,7 +308,7 @@ def _touch_commit_order(ctx, p):
                             x["stmt"].table == "mailboxes":
                         okk = state == 2 or not _alt_touches(alt)
                         break
-                if any(x["func"] == "AppNamespace.prune" for x in evs):
+                if any(x["func"] == _R.sweep_app for x in evs):
                     ctx.ob("R12.touch", "touches are committed before the classifying select",
                            okk, e, "" if okk else "the classification reads mailboxes.updated "
                            "before the listener stamps are written and committed")
@@ -329,10 +334,10 @@ def _cutoff(ctx, model):
     n = 0
     from ..events import each_event
     prune_calls = [x for _, x, _ in each_event(model, ["timer"], ("call",))
-                   if x["callee"] == "AppNamespace.prune"]
+                   if x["callee"] == _R.sweep_app]
     for p, e, _ in each_event(model, ["timer"], ("call",)):
         if True:
-            if e["callee"] == "Server.prune_all_apps":
+            if e["callee"] == _R.sweep_all:
                 n += 1
                 a = e["args"]
                 ok = False
